@@ -837,7 +837,7 @@ func TestVerif_C15(t *testing.T) {
 	}
 	nHist, nEnum := 200, 60
 	if verifThorough() {
-		nHist, nEnum = 3000, 700
+		nHist, nEnum = 2500, 500
 	}
 	var cases, idx []string
 	totalFaults := 0
@@ -914,7 +914,7 @@ func TestVerif_C15(t *testing.T) {
 	// ---------------- part 2: gob round trip
 	nGob := 150
 	if verifThorough() {
-		nGob = 2500
+		nGob = 2000
 	}
 	e.wipe()
 	gobBad := 0
